@@ -3,7 +3,7 @@
 # check of its own property (scratch worktree, VERIF_REPO); prints one line
 # per change.  Needs scratch worktrees /tmp/wt2/CXX (or creates one).
 tier=${1:-quick}; flt=${2:-}
-wt=/tmp/wt-matrix
+wt=${WT:-/tmp/wt-matrix}
 if [ ! -d $wt ]; then git -C /repo worktree add -q --detach $wt HEAD && cp /repo/biom/_*.so /repo/biom/_*.c $wt/biom/; fi
 git -C $wt checkout -q --detach $(git -C /repo rev-parse HEAD)
 for d in /verif/seeded/*${flt}*/; do
